@@ -209,3 +209,316 @@ pub fn interface(i: &idl::Interface<'_>) -> Value {
            "errors": i.errors().map(error).collect::<Vec<_>>(), "comments": comments(i.comments())})
 }
 '''
+
+
+# ---------------------------------------------------------------- heck (Python port, generation only)
+# Used ONLY to keep generated IDL names collision-free; expectations never come from here (they come
+# from the Coq model, which is tied to the real heck by the sweep).
+def _heck_words(s):
+    words = []
+    for word in re.split(r"[^A-Za-z0-9]", s):
+        init, mode, n = 0, "b", len(word)
+        for i, c in enumerate(word):
+            if i + 1 < n:
+                nxt = word[i + 1]
+                nm = "l" if c.islower() else ("u" if c.isupper() else mode)
+                if nm == "l" and nxt.isupper():
+                    words.append(word[init:i + 1])
+                    init, mode = i + 1, "b"
+                elif mode == "u" and c.isupper() and nxt.islower():
+                    words.append(word[init:i])
+                    init, mode = i, "b"
+                else:
+                    mode = nm
+            else:
+                words.append(word[init:])
+    return words
+
+
+def snake(s):
+    return "_".join(w.lower() for w in _heck_words(s))
+
+
+def pascal(s):
+    return "".join(w[:1].upper() + w[1:].lower() for w in _heck_words(s))
+
+
+# ---------------------------------------------------------------- parsing generated modules
+def split_top(s, sep=","):
+    parts, depth, cur = [], 0, []
+    for ch in s:
+        if ch in "<([":
+            depth += 1
+        elif ch in ">)]":
+            depth -= 1
+        if ch == sep and depth == 0:
+            parts.append("".join(cur))
+            cur = []
+        else:
+            cur.append(ch)
+    if "".join(cur).strip():
+        parts.append("".join(cur))
+    return [p.strip() for p in parts]
+
+
+class ParseError(Exception):
+    pass
+
+
+def parse_generated(code):
+    """Abstract module of a file written by zlink_codegen::generate_interface: proxy attribute, trait,
+    method signatures with their attributes, structs, enums, the error enum. Raises ParseError on
+    anything unexpected (reported as a broken correspondence)."""
+    mod = {"iface": None, "trait": None, "error_ty": None, "methods": [], "structs": [], "enums": [],
+           "errors": None, "stub_error": False}
+    lines = [l.rstrip() for l in code.split("\n")]
+    i, pend = 0, []          # pend: attribute lines seen since the last item
+
+    def attr_val(attrs, kind, key):
+        for a in attrs:
+            m = re.fullmatch(r'#\[%s\(%s = "((?:[^"\\]|\\.)*)"\)\]' % (kind, key), a)
+            if m:
+                return m.group(1)
+        return None
+    n = len(lines)
+    while i < n:
+        t = lines[i].strip()
+        i += 1
+        if not t or t.startswith("//") or t.startswith("use "):
+            continue
+        if t.startswith("#["):
+            pend.append(t)
+            continue
+        m = re.fullmatch(r"pub trait (\w+) \{", t)
+        if m:
+            mod["trait"] = m.group(1)
+            pm = [re.fullmatch(r'#\[proxy\("([^"]*)"\)\]', a) for a in pend]
+            pm = [x for x in pm if x]
+            if not pm:
+                raise ParseError("trait without #[proxy(..)]")
+            mod["iface"] = pm[0].group(1)
+            pend = []
+            mattrs = []
+            while i < n:
+                t = lines[i].strip()
+                i += 1
+                if t == "}":
+                    break
+                if not t or t.startswith("///"):
+                    continue
+                if t.startswith("#["):
+                    mattrs.append(t)
+                    continue
+                mm = re.fullmatch(r"async fn (\S+?)\(&mut self(.*)\) -> zlink::Result<Result<(.+), (\w+)>>;", t)
+                if not mm:
+                    raise ParseError("unexpected line in trait: " + t)
+                params = []
+                for p in split_top(mm.group(2)):
+                    if not p:
+                        continue
+                    pm2 = re.fullmatch(r'(?:#\[zlink\(rename = "([^"]*)"\)\] )?(\S+): (.+)', p)
+                    if not pm2:
+                        raise ParseError("unexpected parameter: " + p)
+                    params.append({"ident": pm2.group(2), "rename": pm2.group(1), "ty": pm2.group(3), "borrow": False})
+                other = [a for a in mattrs if not re.fullmatch(r'#\[zlink\(rename = "[^"]*"\)\]', a)]
+                if other:
+                    raise ParseError("unexpected method attribute: " + other[0])
+                mod["methods"].append({"ident": mm.group(1), "rename": attr_val(mattrs, "zlink", "rename"),
+                                       "params": params, "ret": mm.group(3)})
+                if mod["error_ty"] not in (None, mm.group(4)):
+                    raise ParseError("methods name different error types")
+                mod["error_ty"] = mm.group(4)
+                mattrs = []
+            continue
+        m = re.fullmatch(r"pub struct (\w+)(<'a>)? \{", t)
+        if m:
+            st = {"name": m.group(1), "lt": bool(m.group(2)), "fields": []}
+            pend = []
+            fattrs = []
+            while i < n:
+                t = lines[i].strip()
+                i += 1
+                if t == "}":
+                    break
+                if not t or t.startswith("///"):
+                    continue
+                if t.startswith("#["):
+                    fattrs.append(t)
+                    continue
+                fm = re.fullmatch(r"pub (\S+): (.+),", t)
+                if not fm:
+                    raise ParseError("unexpected line in struct: " + t)
+                other = [a for a in fattrs if a != "#[serde(borrow)]" and not re.fullmatch(r'#\[serde\(rename = "[^"]*"\)\]', a)]
+                if other:
+                    raise ParseError("unexpected field attribute: " + other[0])
+                st["fields"].append({"ident": fm.group(1), "rename": attr_val(fattrs, "serde", "rename"),
+                                     "ty": fm.group(2), "borrow": "#[serde(borrow)]" in fattrs})
+                fattrs = []
+            mod["structs"].append(st)
+            continue
+        m = re.fullmatch(r"pub enum (\w+) \{(\})?", t)
+        if m:
+            is_err = any("ReplyError" in a for a in pend)
+            if is_err:
+                er = {"name": m.group(1), "iface": attr_val(pend, "zlink", "interface"), "variants": []}
+                if m.group(2):
+                    mod["stub_error"] = True
+                    pend = []
+                    if er["name"] != mod["error_ty"] and mod["error_ty"] is not None:
+                        raise ParseError("stub error enum name differs from the signatures")
+                    mod["stub_name"] = er["name"]
+                    continue
+                pend = []
+                while i < n:
+                    t = lines[i].strip()
+                    i += 1
+                    if t == "}":
+                        break
+                    if not t or t.startswith("///"):
+                        continue
+                    vm = re.fullmatch(r"(\S+),", t)
+                    if vm:
+                        er["variants"].append({"ident": vm.group(1), "fields": []})
+                        continue
+                    vm = re.fullmatch(r"(\S+) \{", t)
+                    if not vm:
+                        raise ParseError("unexpected line in error enum: " + t)
+                    v = {"ident": vm.group(1), "fields": []}
+                    fattrs = []
+                    while i < n:
+                        t = lines[i].strip()
+                        i += 1
+                        if t == "},":
+                            break
+                        if not t or t.startswith("///"):
+                            continue
+                        if t.startswith("#["):
+                            fattrs.append(t)
+                            continue
+                        fm = re.fullmatch(r"(\S+): (.+),", t)
+                        if not fm:
+                            raise ParseError("unexpected line in error variant: " + t)
+                        other = [a for a in fattrs if not re.fullmatch(r'#\[zlink\(rename = "[^"]*"\)\]', a)]
+                        if other:
+                            raise ParseError("unexpected error field attribute: " + other[0])
+                        v["fields"].append({"ident": fm.group(1), "rename": attr_val(fattrs, "zlink", "rename"),
+                                            "ty": fm.group(2), "borrow": False})
+                        fattrs = []
+                    er["variants"].append(v)
+                mod["errors"] = er
+                continue
+            en = {"name": m.group(1), "rename_all": attr_val(pend, "serde", "rename_all"), "variants": []}
+            pend = []
+            vattrs = []
+            if not m.group(2):
+                while i < n:
+                    t = lines[i].strip()
+                    i += 1
+                    if t == "}":
+                        break
+                    if not t or t.startswith("///"):
+                        continue
+                    if t.startswith("#["):
+                        vattrs.append(t)
+                        continue
+                    vm = re.fullmatch(r"(\S+),", t)
+                    if not vm:
+                        raise ParseError("unexpected line in enum: " + t)
+                    other = [a for a in vattrs if not re.fullmatch(r'#\[serde\(rename = "[^"]*"\)\]', a)]
+                    if other:
+                        raise ParseError("unexpected variant attribute: " + other[0])
+                    en["variants"].append({"ident": vm.group(1), "rename": attr_val(vattrs, "serde", "rename")})
+                    vattrs = []
+            mod["enums"].append(en)
+            continue
+        raise ParseError("unexpected line: " + t)
+    if mod["trait"] is None:
+        raise ParseError("no proxy trait found")
+    if mod["error_ty"] is None:
+        mod["error_ty"] = mod["errors"]["name"] if mod["errors"] else mod.get("stub_name")
+    return mod
+
+
+def cq_ostr(x):
+    return "None" if x is None else "(Some %s)" % cq(x)
+
+
+def cq_gfield(f):
+    return "{| gf_ident := %s; gf_rename := %s; gf_ty := %s; gf_borrow := %s |}" % (
+        cq(f["ident"]), cq_ostr(f["rename"]), cq(f["ty"]), "true" if f["borrow"] else "false")
+
+
+def cq_gmodule(m):
+    methods = cq_list(["{| gm_ident := %s; gm_rename := %s; gm_params := %s; gm_ret := %s |}" % (
+        cq(x["ident"]), cq_ostr(x["rename"]), cq_list([cq_gfield(p) for p in x["params"]]), cq(x["ret"]))
+        for x in m["methods"]])
+    structs = cq_list(["{| gs_name := %s; gs_lifetime := %s; gs_fields := %s |}" % (
+        cq(s["name"]), "true" if s["lt"] else "false", cq_list([cq_gfield(f) for f in s["fields"]]))
+        for s in m["structs"]])
+    enums = cq_list(["{| ge_name := %s; ge_rename_all := %s; ge_variants := %s |}" % (
+        cq(e["name"]), cq_ostr(e["rename_all"]),
+        cq_list(["{| gv_ident := %s; gv_rename := %s |}" % (cq(v["ident"]), cq_ostr(v["rename"])) for v in e["variants"]]))
+        for e in m["enums"]])
+    if m["errors"]:
+        er = m["errors"]
+        errors = "(Some {| gerr_name := %s; gerr_iface := %s; gerr_variants := %s |})" % (
+            cq(er["name"]), cq(er["iface"] or ""),
+            cq_list(["{| gev_ident := %s; gev_fields := %s |}" % (cq(v["ident"]), cq_list([cq_gfield(f) for f in v["fields"]]))
+                     for v in er["variants"]]))
+    else:
+        errors = "None"
+    return ("{| g_iface := %s; g_trait := %s; g_error_ty := %s; g_methods := %s; g_structs := %s; "
+            "g_enums := %s; g_errors := %s |}") % (cq(m["iface"] or ""), cq(m["trait"] or ""), cq(m["error_ty"] or ""),
+                                                    methods, structs, enums, errors)
+
+
+# IDL trees (Python dicts) -> Coq terms of Codegen/IdlTy.v, and -> IDL text
+# type: "bool"|"int"|"float"|"string"|"object"|{"opt":t}|{"arr":t}|{"map":t}|{"custom":n}|
+#       {"enum":[[name,[]]..]}|{"obj":[[name,t,[]]..]}
+def cq_method(m):
+    return "{| m_name := %s; m_inputs := %s; m_outputs := %s; m_comments := [] |}" % (
+        cq(m["name"]), cq_fields(m["inputs"]), cq_fields(m["outputs"]))
+
+
+def cq_iface(i):
+    return "{| i_name := %s; i_methods := %s; i_types := %s; i_errors := %s; i_comments := [] |}" % (
+        cq(i["name"]), cq_list([cq_method(m) for m in i["methods"]]),
+        cq_list([cq_custom(c) for c in i["types"]]), cq_list([cq_error(e) for e in i["errors"]]))
+
+
+def idl_type_text(t):
+    if isinstance(t, str):
+        return t
+    (k, v), = t.items()
+    if k == "opt":
+        return "?" + idl_type_text(v)
+    if k == "arr":
+        return "[]" + idl_type_text(v)
+    if k == "map":
+        return "[string]" + idl_type_text(v)
+    if k == "custom":
+        return v
+    if k == "enum":
+        return "(" + ", ".join(n for n, _ in v) + ")"
+    if k == "obj":
+        return "(" + ", ".join("%s: %s" % (n, idl_type_text(x)) for n, x, _ in v) + ")"
+    raise ValueError(t)
+
+
+def idl_text(i):
+    L = ["interface " + i["name"], ""]
+    for c in i["types"]:
+        if c["kind"] == "object":
+            L.append("type %s (%s)" % (c["name"], ", ".join("%s: %s" % (n, idl_type_text(t)) for n, t, _ in c["fields"])))
+        else:
+            L.append("type %s (%s)" % (c["name"], ", ".join(n for n, _ in c["variants"])))
+        L.append("")
+    for m in i["methods"]:
+        L.append("method %s(%s) -> (%s)" % (
+            m["name"], ", ".join("%s: %s" % (n, idl_type_text(t)) for n, t, _ in m["inputs"]),
+            ", ".join("%s: %s" % (n, idl_type_text(t)) for n, t, _ in m["outputs"])))
+        L.append("")
+    for e in i["errors"]:
+        L.append("error %s (%s)" % (e["name"], ", ".join("%s: %s" % (n, idl_type_text(t)) for n, t, _ in e["fields"])))
+        L.append("")
+    return "\n".join(L)
